@@ -193,6 +193,14 @@ class _ManifoldDynamicsService(_DynamicsServiceBase):
         """The complex center eigenvectors of the system."""
         return self.stability.Wc        
 
+    def _orbit_key(self) -> tuple:
+        """Identity, state and period of the generating orbit: every cached result depends on all three."""
+        return (
+            id(self.orbit),
+            tuple(np.asarray(self.orbit.initial_state, dtype=float).tolist()),
+            self.period,
+        )
+
     @property
     def stability(self) -> StabilityPipeline:
         """The stability of the manifold."""
@@ -231,7 +239,7 @@ class _ManifoldDynamicsService(_DynamicsServiceBase):
         Tuple[np.ndarray, np.ndarray, np.ndarray, np.ndarray]
             The stm of the manifold.
         """
-        cache_key = self.make_key(id(self.orbit), steps, self.forward)
+        cache_key = self.make_key(self._orbit_key(), steps, self.forward)
         
         def _factory() -> Tuple[np.ndarray, np.ndarray, np.ndarray, np.ndarray]:
             return _compute_stm(
@@ -261,7 +269,7 @@ class _ManifoldDynamicsService(_DynamicsServiceBase):
         show_progress: bool,
     ) -> Tuple[float, float, List[np.ndarray], List[np.ndarray], int, int]:
         cache_key = self.make_key(
-            id(self.orbit),
+            self._orbit_key(),
             self.stable,
             self.direction,
             step,
@@ -460,7 +468,7 @@ class _ManifoldDynamicsService(_DynamicsServiceBase):
         if options is None:
             options = self.eigendecomposition_options
             
-        key = self.make_key(id(self.domain_obj), tuple(sorted(options.to_dict().items())))
+        key = self.make_key(id(self.domain_obj), self._orbit_key(), tuple(sorted(options.to_dict().items())))
         
         def _factory() -> StabilityPipeline:
             _, _, phi_T, _ = self.compute_stm(steps=2000)
